@@ -4,6 +4,9 @@
 From Coq Require Import List NArith ZArith Bool Sorted.
 From V Require Import Lib.Enc Model.Bits Proofs.BitsBasic Proofs.BitsIter Proofs.BitsBulk Proofs.BitsRefine Proofs.BitsEntry.
 From V Require Run.C16.
+From V Require Import Lib.GoSem Gen.BitsCode Proofs.BitsCode Proofs.BitsCodeRun.
+From V Require Run.C16Code.
+From V Require Gen.DszBitsCode Proofs.DszBitsCode.
 Import ListNotations.
 Local Open Scope N_scope.
 
@@ -82,3 +85,78 @@ Print Assumptions c16_bits_refines_set.
 Theorem c16_entry_model_eq_spec : forall args, Run.C16.entry 0 args = Run.C16.entry 1 args.
 Proof. exact c16_entry_eq. Qed.
 Print Assumptions c16_entry_model_eq_spec.
+
+(* ---------------------------------------------------------------- the code IS the model (third tie to the source) *)
+(* Gen/BitsCode.v is produced on every run by the Go -> Gallina translator gen/trans.go from the function BODIES of
+   setz/bits.go, type Bitmap: Grow, Add, Remove, Contains, Len, Cap, Diff, Intersect, Merge, Clone.  Every generated function
+   g_Bitmap_... equals the hand-written model function on which the theorems above rest.
+   Conversion (Proofs/BitsCode.v): the generated code has Z words kept in [0, 2^64) by wrap 64, the model unbounded N words;
+   to_model = map Z.to_N, of_model = map Z.of_N; wf b = every word of b is in [0, 2^64) (the range of []uint64), which every
+   generated function preserves (last clause); uint arguments are Z with 0 <= n (no upper bound needed).  No other premise:
+   the model is total and so is the code (none of these functions panics on a well-formed state).
+   Loops (Len, Diff, Intersect, Merge): the model is a structural Fixpoint; the generated loop run with fuel above the number
+   of iterations (length of the receiver's, for Merge of the operand's, word list) returns the model's result, so
+   fuel = S (length ...) suffices for every state.  bits.OnesCount64 is ones_count 64 of Lib/GoSem.v (the number of set bits
+   among positions 0..63: the standard-library function by its specification), proved equal to the model's popcount. *)
+Theorem c16_code_is_model :
+  (forall b n, wf b -> (0 <= n)%Z -> g_Bitmap_Grow b n = Ret (of_model (grow (to_model b) (Z.to_N n)))) /\
+  (forall b n, wf b -> (0 <= n)%Z ->
+     g_Bitmap_Add b n = Ret (of_model (fst (add (to_model b) (Z.to_N n))), snd (add (to_model b) (Z.to_N n)))) /\
+  (forall b n, wf b -> (0 <= n)%Z ->
+     g_Bitmap_Remove b n = Ret (of_model (fst (remove (to_model b) (Z.to_N n))), snd (remove (to_model b) (Z.to_N n)))) /\
+  (forall b n, wf b -> (0 <= n)%Z -> g_Bitmap_Contains b n = Ret (contains (to_model b) (Z.to_N n))) /\
+  (forall b, wf b -> g_Bitmap_Cap b = Ret (Z.of_N (cap (to_model b)))) /\
+  (forall b, g_Bitmap_Clone b = Ret b) /\
+  (forall fuel b, wf b -> (length (Bitmap_set b) < fuel)%nat -> g_Bitmap_Len fuel b = Ret (Z.of_nat (len (to_model b)))) /\
+  (forall fuel b o, wf b -> wf o -> (length (Bitmap_set b) < fuel)%nat ->
+     g_Bitmap_Diff fuel b o = Ret (of_model (diff (to_model b) (to_model o)))) /\
+  (forall fuel b o, wf b -> wf o -> (length (Bitmap_set b) < fuel)%nat ->
+     g_Bitmap_Intersect fuel b o = Ret (of_model (inter (to_model b) (to_model o)))) /\
+  (forall fuel b o, wf b -> wf o -> (length (Bitmap_set o) < fuel)%nat ->
+     g_Bitmap_Merge fuel b o = Ret (of_model (merge (to_model b) (to_model o)))) /\
+  (forall b, wf b -> of_model (to_model b) = b) /\ (forall l, to_model (of_model l) = l) /\
+  (forall b o n, wf b -> wf o ->
+     wf (of_model (grow (to_model b) n)) /\ wf (of_model (fst (add (to_model b) n))) /\ wf (of_model (fst (remove (to_model b) n))) /\
+     wf (of_model (diff (to_model b) (to_model o))) /\ wf (of_model (inter (to_model b) (to_model o))) /\
+     wf (of_model (merge (to_model b) (to_model o)))).
+Proof.
+  exact (conj code_Grow (conj code_Add (conj code_Remove (conj code_Contains (conj code_Cap (conj code_Clone (conj code_Len
+        (conj code_Diff (conj code_Intersect (conj code_Merge (conj of_to (conj to_of code_wf)))))))))))).
+Qed.
+Print Assumptions c16_code_is_model.
+
+(* the case interpreter of the correspondence run, kind 1 (setz.Bitmap), executed through the generated functions
+   (Run/C16Code.v: Add, Remove, Contains, Len, Cap, Grow, Diff, Intersect, Merge, Clone are the generated g_Bitmap_...; Iter /
+   Range / All stay the model's enumeration of the generated state's words) gives the output of `entry` on every case:
+   the differential run of entry 0 against the compiled package is, for kind 1, a run of the generated code *)
+Theorem c16_entry_runs_generated_code : forall sub args, Run.C16Code.entry_code sub args = Run.C16.entry sub args.
+Proof. exact entry_code_is_entry. Qed.
+Print Assumptions c16_entry_runs_generated_code.
+
+(* dsz/bits.go, type Bits (the deprecated twin with the length cached inline): Gen/DszBitsCode.v, regenerated on every run,
+   equals the model's record functions b_add / b_remove (cached length moves exactly when membership changes), contains,
+   grow, cap; Len is the cached field.  Same conversion (to_bits / of_bits: words through Z.to_N / Z.of_N, the cached
+   length as it is), same premises (wfd: every word in [0, 2^64); 0 <= n), wfd preserved. *)
+Theorem c16_dsz_code_is_model :
+  (forall b n, DszBitsCode.wfd b -> (0 <= n)%Z ->
+     Gen.DszBitsCode.g_Bits_Grow b n =
+     Ret (DszBitsCode.of_bits {| words := grow (words (DszBitsCode.to_bits b)) (Z.to_N n); cached := cached (DszBitsCode.to_bits b) |})) /\
+  (forall b n, DszBitsCode.wfd b -> (0 <= n)%Z ->
+     Gen.DszBitsCode.g_Bits_Add b n = Ret (DszBitsCode.of_bits (fst (b_add (DszBitsCode.to_bits b) (Z.to_N n))))) /\
+  (forall b n, DszBitsCode.wfd b -> (0 <= n)%Z ->
+     Gen.DszBitsCode.g_Bits_Remove b n = Ret (DszBitsCode.of_bits (fst (b_remove (DszBitsCode.to_bits b) (Z.to_N n))))) /\
+  (forall b n, DszBitsCode.wfd b -> (0 <= n)%Z ->
+     Gen.DszBitsCode.g_Bits_Contains b n = Ret (contains (words (DszBitsCode.to_bits b)) (Z.to_N n))) /\
+  (forall b, Gen.DszBitsCode.g_Bits_Len b = Ret (cached (DszBitsCode.to_bits b))) /\
+  (forall b, DszBitsCode.wfd b -> Gen.DszBitsCode.g_Bits_Cap b = Ret (Z.of_N (cap (words (DszBitsCode.to_bits b))))) /\
+  (forall b, DszBitsCode.wfd b -> DszBitsCode.of_bits (DszBitsCode.to_bits b) = b) /\
+  (forall m, DszBitsCode.to_bits (DszBitsCode.of_bits m) = m) /\
+  (forall b n, DszBitsCode.wfd b ->
+     DszBitsCode.wfd (DszBitsCode.of_bits {| words := grow (words (DszBitsCode.to_bits b)) n; cached := cached (DszBitsCode.to_bits b) |}) /\
+     DszBitsCode.wfd (DszBitsCode.of_bits (fst (b_add (DszBitsCode.to_bits b) n))) /\
+     DszBitsCode.wfd (DszBitsCode.of_bits (fst (b_remove (DszBitsCode.to_bits b) n)))).
+Proof.
+  exact (conj DszBitsCode.dsz_Grow (conj DszBitsCode.dsz_Add (conj DszBitsCode.dsz_Remove (conj DszBitsCode.dsz_Contains
+        (conj DszBitsCode.dsz_Len (conj DszBitsCode.dsz_Cap (conj DszBitsCode.of_to_bits (conj DszBitsCode.to_of_bits DszBitsCode.dsz_wf)))))))).
+Qed.
+Print Assumptions c16_dsz_code_is_model.
